@@ -36,7 +36,7 @@ def run_tagged(tag, tier, seed, workers, us, extra_rule=''):
     tot = merge_all(cs)
     viol = [v for v in tot.violations if v.key.startswith(tag + ':') or v.key.startswith('INTERNAL')]
     for cell, s in sizes.items():
-        if len(s) != 1:
+        if len(s) != 1 and tot.get('cap_hit') == 0 and tot.get('stopped_early_after_violations') == 0:
             from ..core import Violation
             viol.append(Violation(f'{tag}:graph_size', f'state graphs differ in size across dealers/vulnerabilities: {sorted(s)} '
                                                         f'(projection {cell})', {}))
